@@ -278,6 +278,7 @@ func (c *ChainIndexer) updateLoop() {
 
 		case <-c.update:
 			// Section headers completed (or rolled back), update the index
+			verifIndexer(1, 0)
 			c.lock.Lock()
 			if c.knownSections > c.storedSections {
 				// Periodically print an upgrade log message to the user
@@ -300,6 +301,7 @@ func (c *ChainIndexer) updateLoop() {
 				if err != nil {
 					c.log.Error("Section processing failed", "error", err)
 				}
+				verifIndexer(3, section)
 				c.lock.Lock()
 
 				// If processing succeeded and no reorgs occcurred, mark the section completed
@@ -332,6 +334,7 @@ func (c *ChainIndexer) updateLoop() {
 				})
 			}
 			c.lock.Unlock()
+			verifIndexer(4, 0)
 		}
 	}
 }
@@ -351,6 +354,7 @@ func (c *ChainIndexer) processSection(section uint64, lastHead common.Hash) (com
 	}
 
 	for number := section * c.sectionSize; number < (section+1)*c.sectionSize; number++ {
+		verifIndexer(2, number)
 		hash := GetCanonicalHash(c.chainDb, number)
 		if hash == (common.Hash{}) {
 			return common.Hash{}, fmt.Errorf("canonical block #%d unknown", number)
